@@ -392,12 +392,29 @@ class Runner:
                     out.append((f"g{gi+1}.basis_diagonalises.b{b}.k{k1}", "offdiag(Q^T A Q) ~ 0", off))
             else:
                 prev = self.refs[gi].blocks[b - 1].root[self.refs[gi].blocks[b - 1].pdims[k1 - 1]]
-                if bool(prev.any()) and g.get("qr_iters", 1) == 1:
-                    qq = torch.linalg.qr(a @ prev).Q
-                    # same column spaces up to sign and ordering: |Q_ref^T Q| is a permutation matrix
-                    m = (qq.T @ q).abs()
-                    if float((m.max(dim=0).values - 1).abs().max()) > 1e-6 or float((m.sum(dim=0) - 1).abs().max()) > 1e-5:
-                        out.append((f"g{gi+1}.basis_qr_update.b{b}.k{k1}", "columns of qr(A Q_prev) up to sign/order", m.tolist()))
+                if bool(prev.any()):
+                    # the documented algorithm, in float64, from the basis that was stored before this refresh: Q <- qr(A Q) until the
+                    # relative change is within the tolerance or the iteration budget is used, then ordered by Rayleigh quotient
+                    iters, tol = int(g.get("qr_iters", 1)), float(g.get("qr_tol", 1e-5))
+                    qq, it, err = prev.clone(), 0, float("inf")
+                    while it < iters and err > tol:
+                        last = qq
+                        qq = torch.linalg.qr(a @ qq).Q
+                        it += 1
+                        err = float((last - qq).norm() / last.norm())
+                    # orthogonal iteration amplifies rounding by (lambda_max / lambda_i) per step: compare only while that stays small,
+                    # and never across a (numerically) singular factor, whose trailing columns are arbitrary
+                    lam = torch.linalg.eigvalsh((a + a.T) / 2)
+                    stable = float(lam.min()) > 1e-12 * float(lam.max()) and (float(lam.max() / lam.min()) ** it) * 1e-16 < 1e-9
+                    if stable:
+                        # same column spaces up to sign and ordering: |Q_ref^T Q| is a permutation matrix (a tolerance-controlled stop may
+                        # fall one iteration earlier or later when the change is within rounding of the tolerance)
+                        m = (qq.T @ q).abs()
+                        lim = max(1e-6, 50 * tol)
+                        if float((m.max(dim=0).values - 1).abs().max()) > lim or float((m.sum(dim=0) - 1).abs().max()) > 10 * lim * n:
+                            out.append((f"g{gi+1}.basis_qr_update.b{b}.k{k1}",
+                                        f"columns of the {it}-iteration orthogonal-iteration update of the previous basis, up to sign/order",
+                                        [round(float(x), 6) for x in m.max(dim=0).values][:8]))
             # ordering is only promised by the eigendecomposition routine itself (C12); a factor that has been diagonal so far
             # legitimately gets the identity basis, whatever the order of its diagonal
             if n > 1 and not torch.equal(q, eye) and bool((ray[1:] < ray[:-1] - 1e-8 * scale).any()):
